@@ -133,14 +133,24 @@ def mc_lease(wd, tier, workers):
 _READS = dict(hcfg={"n": 3, "cap": 100}, rnd_cfgs=[{"n": 3, "cap": 100}, {"n": 5, "cap": 100}], profile="reads")
 PROPS["C11"] = dict(mc={"quick": ["repl-q"], "thorough": ["repl-t"]}, mc_custom=mc_lease, mech=["Client"], min_mech=2, **_READS)
 PROPS["C12"] = dict(mc={"quick": [], "thorough": []}, mc_custom=mc_lease, mech=["Client"], min_mech=2, **_READS)
+PROPS["C30"] = dict(mc={"quick": ["repl-q"], "thorough": ["repl-t"]}, mech=["Client"], min_mech=2, level="exploration",
+                    hcfg={"n": 3, "cap": 2}, rnd_cfgs=[{"n": 3, "cap": 2}, {"n": 3, "cap": 100, "general_timeout_ms": 50}], profile="reads")
+PROPS["C32"] = dict(mc={"quick": ["repl-q"], "thorough": ["repl-t"]}, mech=["Crash", "DropMsg", "DropVQ"], min_mech=2, level="exploration")
+_WHAT.update({"C30": "no accepted request is silently dropped (every request is answered once every deadline has passed and leaders have ticked)",
+              "C32": "the cluster recovers once faults stop (bounded fair quiet period after every explored fault history)"})
 _WHAT.update({"C11": "linearizable reads are linearizable", "C12": "lease reads only under a valid, exclusive leader lease"})
 _WHAT.update({"C03": "a node skips vote collection only when it is the only voter",
               "C26": "membership changes never allow two disjoint quorums",
               "C27": "learners never vote, never start elections, never count toward quorums until promoted",
               "C28": "membership survives restart"})
 MANIFEST_INFO = {p: dict(technique="TLA+/TLC model checking of DEngine.tla + trace validation of real-node executions (DETrace.tla)",
-                         category="model_checking", text=w + ": " + _TEXT, note=_NOTE, ref="DESIGN.md sections 2-3, 9")
+                         category=PROPS[p].get("level", "model_checking"), text=w + ": " + _TEXT, note=_NOTE,
+                         ref="DESIGN.md sections 2-3, 9")
                  for p, w in _WHAT.items()}
+for _p in ("C30", "C32"):
+    MANIFEST_INFO[_p]["technique"] = ("TLA+ trace judge (DETrace.tla) over executions of real nodes with a deterministic "
+                                      "fault-free epilogue; DEngine.tla safety model checked with TLC as the base")
+    MANIFEST_INFO[_p]["note"] = _NOTE + "; the liveness part is bounded exploration (epilogue of fixed length), not a TLC liveness proof"
 
 TIER = {
     "quick": dict(sim_num=60, sim_depth=45, rnd_runs=80, rnd_depth=60, workers=8, mc_timeout=900),
@@ -334,7 +344,7 @@ def check(prop, tier):
         "known_findings_hit": sorted({"%s/%s/%s" % (k["property"], k["monitor"], k["cause"]) for k, _ in known_hits}),
         "exhaustive": False,
     }
-    level = "model_checking" if not divsum else "exploration"
+    level = spec.get("level", "model_checking") if not divsum else "exploration"
     dv.write_evidence(prop, tier, level, cov,
                       ["DEngine.tla models the node entry points at harness-step granularity; apply pipeline collapsed",
                        "in-memory storage engine / state machine replace the File and RocksDB engines in the cluster runs",
